@@ -509,7 +509,7 @@ pub mod verif_hooks {
     }
 
     pub fn rule_push_value_to_csr_memory(
-        node: &impl InstructionProperties,
+        node: &ParserNode,
         memory_out: &mut AvailableValueMap<MemoryLocation>,
         available_in: &AvailableValueMap<Register>,
     ) {
@@ -517,7 +517,7 @@ pub mod verif_hooks {
     }
 
     pub fn rule_pull_value_from_csr_memory(
-        node: &impl InstructionProperties,
+        node: &ParserNode,
         available_out: &mut AvailableValueMap<Register>,
         memory_out: &AvailableValueMap<MemoryLocation>,
     ) {
